@@ -63,6 +63,7 @@ class Opts:
         self.backward_ann = False  # main thread carries '## backward ##' annotations (not nested in each other)
         self.force_second_thread = False
         self.first_op_children = False  # the first file entry may enclose other calls
+        self.align_ends = False  # some kernels end exactly when the busiest other stream becomes free (equally heavy alternative paths)
         self.random_pad = True  # one case in eight gets 130-140 metadata entries after the first entry (file positions > 127)
         self.pad_entries = 0  # number of metadata entries inserted right after the first entry (pushes file positions up)
         self.corr_base = None  # None: 1000 * (rank + 1); otherwise correlation ids count up from this base (small ids -> narrow dtypes)
@@ -100,7 +101,8 @@ def leaf_launch(draw, o: Opts, streams: List[int]) -> Dict[str, Any]:
             "stream": pick(draw, streams), "delay": pick(draw, ([0, 0] if o.allow_zero_delay else [1]) + [1, 2, 3, 6]),
             "kgap": pick(draw, [0, 0, 1, 2, 4]), "kdur": pick(draw, ([0] if o.allow_zero_kdur else []) + list(o.kdurs)),
             "kname": kname, "fault": fault, "bytes": pick(draw, [0, 4, 1024, 4096]),
-            "bw": pick(draw, [0.0, 0.5, 1.25, 12.0, 100.0])}
+            "bw": pick(draw, [0.0, 0.5, 1.25, 12.0, 100.0]),
+            "align": bool(o.align_ends and len(streams) > 1 and pick(draw, [False, False, False, True]))}
 
 
 @st.composite
@@ -162,6 +164,26 @@ def body(draw, o: Opts, streams: List[int], depth: int) -> List[Dict[str, Any]]:
                         "min": 0, "kids": []})
         else:
             out.append(draw(op_node(o, streams, depth)))
+    if o.align_ends and o.device_sync and o.w_sync and len(streams) > 1 and pick(draw, [True, False, False, False, False]):
+        # two streams whose last kernels end at the same instant, then a device-wide synchronisation: two equally heavy
+        # paths lead into the end of the synchronising call
+        s1, s2 = list(draw(st.permutations(streams)))[:2]
+        a = draw(leaf_launch(o, streams))
+        a.update({"stream": s1, "kdur": pick(draw, [20, 30, 12]), "kind": "kernel", "name": "cudaLaunchKernel", "fault": "none",
+                  "kname": pick(draw, vocab.COMP_KERNELS), "align": False})
+        b = draw(leaf_launch(o, streams))
+        b.update({"stream": s2, "pre": pick(draw, [0, 1, 2]), "dur": 1, "delay": 1, "kind": "kernel", "name": "cudaLaunchKernel",
+                  "fault": "none", "kname": pick(draw, vocab.COMP_KERNELS), "align": True})
+        sy = draw(leaf_sync(o, streams))
+        sy.update({"name": "cudaDeviceSynchronize", "stream": None, "fault": "none"})
+        grp = [a, b, sy]
+        if pick(draw, [True, False]):
+            # the stream of the later-starting kernel is the one seen first
+            c = draw(leaf_launch(o, streams))
+            c.update({"stream": s2, "kdur": pick(draw, [1, 2, 4]), "kind": "kernel", "name": "cudaLaunchKernel", "fault": "none",
+                      "kname": pick(draw, vocab.COMP_KERNELS), "align": False})
+            grp.insert(0, c)
+        out += grp
     return out
 
 
@@ -241,7 +263,7 @@ def rank_program(draw, o: Opts, rank: int, nsteps: int, first_step: int) -> Dict
 # ------------------------------------------------------------------------------------------------
 # simulation
 class Sim:
-    def __init__(self, rank: int, epoch: int, corr_base: Optional[int] = None, pad: int = 0) -> None:
+    def __init__(self, rank: int, epoch: int, corr_base: Optional[int] = None, pad: int = 0, shared_corr: bool = False) -> None:
         self.pad = pad
         self.rank = rank
         self.epoch = epoch
@@ -250,7 +272,9 @@ class Sim:
         self.stream_free: Dict[int, int] = {}
         self.stream_ready: Dict[int, int] = {}  # earliest start imposed on a stream by a cudaStreamWaitEvent
         self.last_record: Optional[Dict[str, int]] = None  # most recent cudaEventRecord: corr id, stream, time its work is done
-        self.corr = 1000 * (rank + 1) if corr_base is None else corr_base + 40 * rank
+        # correlation ids are unique within one file only; every rank's counter may start at the same value
+        crank = 0 if shared_corr else rank
+        self.corr = 1000 * (crank + 1) if corr_base is None else corr_base + 40 * crank
         self.ext = 0
         self.host: Dict[int, List[Dict[str, Any]]] = {}
         self.device: List[Dict[str, Any]] = []
@@ -299,6 +323,10 @@ class Sim:
             if node["fault"] != "no_kernel" and s in self.stream_ready:
                 k_start = max(k_start, self.stream_ready.pop(s))
             k_end = k_start + node["kdur"]
+            if node.get("align"):
+                later = [f for st_, f in self.stream_free.items() if st_ != s and f > k_start]
+                if later:
+                    k_end = max(later)
             fault = node["fault"]
             if fault != "no_launch":
                 self._host(tid, "cuda_runtime", node["name"], ts, end_call, {"correlation": corr})
@@ -361,7 +389,7 @@ class Sim:
 
 
 def simulate_rank(prog: Dict[str, Any], epoch: int) -> Sim:
-    sim = Sim(prog["rank"], epoch, prog.get("corr_base"), prog.get("pad", 0))
+    sim = Sim(prog["rank"], epoch, prog.get("corr_base"), prog.get("pad", 0), prog.get("shared_corr", False))
     if "lead" in prog:
         # tid below every other host tid so that it is sequence 0 of the merge (first file entry)
         sim._host(sim.hpid - 1, "cpu_op", "aten::empty", prog["lead"]["ts"], prog["lead"]["ts"] + prog["lead"]["dur"], {})
@@ -469,6 +497,7 @@ def sim_case(draw, o: Optional[Opts] = None, max_ranks: int = 2, same_steps: boo
     pad_case = o.random_pad and o.pad_entries == 0 and pick(draw, [False] * 7 + [True])
     # correlation ids: usually 1000*(rank+1)+k; sometimes small or just below a dtype boundary (narrow column dtypes)
     corr_base = o.corr_base if o.corr_base is not None or not o.random_pad else pick(draw, [None] * 5 + [0, 100, 32_700])
+    shared_corr = nranks > 1 and o.random_pad and pick(draw, [True, False, False])
     for r in range(nranks):
         o_r = o
         if pad_case:
@@ -479,6 +508,7 @@ def sim_case(draw, o: Optional[Opts] = None, max_ranks: int = 2, same_steps: boo
             ops_r, kern_r = o.rank_vocab[r % len(o.rank_vocab)]
             o_r = Opts(**{**o_r.__dict__, "op_names": ops_r, "kernel_names": kern_r})
         prog = draw(rank_program(o_r, r, nsteps, first_step))
+        prog["shared_corr"] = shared_corr
         sim = simulate_rank(prog, epoch)
         events = draw(merge_order(sim))
         if extras_trace_span:  # exactly one profiler span entry, as Kineto writes it
@@ -493,4 +523,4 @@ def sim_case(draw, o: Optional[Opts] = None, max_ranks: int = 2, same_steps: boo
     from hv.hta_io import prelude_strategy
 
     return {"ranks": ranks, "fmt": pick(draw, ["json", "gz"]), "mp": pick(draw, [False] * 5 + [True]),
-            "prelude": draw(prelude_strategy())}
+            "prelude": draw(prelude_strategy()), "shared_corr": bool(shared_corr)}
